@@ -283,6 +283,11 @@ func compare(s *bundlekit.Spec, file []byte, rb *bundle.Bundle) string {
 func TestPropRoundTrip(t *testing.T) {
 	prop.Rapid(t, func(t *rapid.T) Case {
 		s := bundlekit.GenWide(t)
+		if rapid.IntRange(0, 5).Draw(t, "align") == 0 {
+			// a section or the whole file ending exactly at / next to a multiple of a typical piece size
+			bundlekit.AlignTo(s, rapid.SampledFrom([]string{"responses", "index+responses", "file"}).Draw(t, "aligntarget"),
+				rapid.SampledFrom([]int{512, 4096, 32768, 65536}).Draw(t, "alignmod"), rapid.SampledFrom([]int{0, 0, -1, 1}).Draw(t, "alignoff"))
+		}
 		return Case{Spec: *s, Cycles: rapid.IntRange(0, 3).Draw(t, "cycles"), ReadMode: gen.DrawSourceMode(t, "readmode")}
 	})
 }
